@@ -1,6 +1,6 @@
 (** C13 — arithmetic lemmas: machine integers of the roll-over test, LegacyDec shares (lemmas about
     Lib/Dec.v that this property needs), period arithmetic. *)
-From Coq Require Import ZArith List Bool Lia.
+From Coq Require Import String ZArith List Bool Lia.
 Import ListNotations.
 Require Import Nib.Lib.Dec Nib.C13.Model Nib.C13.Spec.
 Local Open Scope Z_scope.
@@ -85,9 +85,25 @@ Qed.
 (** with valid proportions the two sends succeed and the strategic reserve receives the remainder *)
 Lemma allocate_ok p m0 amt :
   dist_ok p -> 0 <= m0 -> 0 <= amt ->
-  allocate p m0 amt =
+  allocate true p m0 amt =
     (share amt (p_staking p), share amt (p_community p),
      m0 + amt - share amt (p_staking p) - share amt (p_community p), 0, true).
+Proof.
+  intros [D1 [D2 [D3 D4]]] Hm Ha. unfold allocate.
+  pose proof (share_sum_le amt (p_staking p) (p_community p) Ha D1 D2 ltac:(lia)) as S.
+  pose proof (share_nonneg amt (p_staking p) Ha D1). pose proof (share_nonneg amt (p_community p) Ha D2).
+  assert (m0 + amt <? share amt (p_staking p) = false) as -> by (apply Z.ltb_ge; lia).
+  assert (m0 + amt - share amt (p_staking p) <? share amt (p_community p) = false) as -> by (apply Z.ltb_ge; lia).
+  reflexivity.
+Qed.
+
+(** … and when the bank refuses the sudo root as a recipient, the two sends have happened, the strategic share
+    stays in the module account and the call reports an error *)
+Lemma allocate_blocked p m0 amt :
+  dist_ok p -> 0 <= m0 -> 0 <= amt ->
+  allocate false p m0 amt =
+    (share amt (p_staking p), share amt (p_community p), 0,
+     m0 + amt - share amt (p_staking p) - share amt (p_community p), false).
 Proof.
   intros [D1 [D2 [D3 D4]]] Hm Ha. unfold allocate.
   pose proof (share_sum_le amt (p_staking p) (p_community p) Ha D1 D2 ltac:(lia)) as S.
